@@ -2,6 +2,7 @@
 pub mod alloc;
 pub mod chain;
 pub mod corpus;
+pub mod history;
 pub mod io;
 pub mod monitors;
 pub mod panics;
